@@ -190,10 +190,17 @@ def limits_from_new(tmpl, ctx, S):
     return c / PI32, facts_f32(0.1)
 
 
-def find_lpf(gp):
+def find_lpf(gp, depth=0):
+    """the biquad the processor owns: a field of type DirectForm1, possibly inside a private sub-struct of the crate"""
     for f in gp.fields:
         if isinstance(f, StructV) and f.path == DF1:
             return f
+    if depth < 2:
+        for f in gp.fields:
+            if isinstance(f, StructV) and f.path.startswith('synth_utils::'):
+                r = find_lpf(f, depth + 1)
+                if r is not None:
+                    return r
     return None
 
 
